@@ -12,7 +12,7 @@ import copy
 import json
 import os
 
-from common import (SPEC, ToolError, Verdict, parallel_harness, read_ndjson, seed, tlc, validate_trace, workdir,
+from common import (SPEC, ToolError, Verdict, parallel_harness, read_ndjson, run_harness, seed, tlc, validate_trace, workdir,
                     write_ndjson)
 
 PID = "C13"
@@ -108,6 +108,20 @@ def run(tier):
             if a:
                 raise ToolError("binding self-test failed: %s record accepted" % nm)
         v.add(binding_selftest="record with a corrupted result and record ending in a hang both rejected")
+    # ---- classification: every constructible failure of one execution, definitive or ignorable (real execute, paused clock)
+    import re as _re
+    cout = os.path.join(wd, "classify.ndjson")
+    run_harness("vh-driver", ["c13", "classify", cout], timeout=300)
+    crow = read_ndjson(cout)
+    if len(crow) < 25:
+        raise ToolError("c13 classify: %d errors" % len(crow))
+    acc, rc_, rej = validate_trace("Trace_SpecClassify", "Trace_SpecClassify.cfg", cout, timeout=300)
+    if not acc:
+        raise ToolError("Trace_SpecClassify did not consume its input (line %s)" % rej)
+    for b in sorted({int(m.group(1)) - 1 for m in _re.finditer(r'<<"BAD", (\d+)>>', rc_.out)}):
+        x = crow[b]
+        v.violation("speculative execution: an execution failing with %s at t=1 while another succeeds at t=5: the call returned %s at t=%s" % (x["name"], x["result"], x["t"]), [x])
+    v.add(classified_failures=len(crow))
     # ---- end to end: mock nodes that answer late; frames in flight at the cluster (a real Session per scenario)
     from e2e import run_e2e
     run_e2e(v, wd, tier, "spec")
